@@ -239,6 +239,31 @@ func c19R2(p *core.Prog, r *core.Report) {
 		r.Undecided(rule, "cmd/regbot", "--dry-run flag binding", "-", "no BoolVar(&field, \"dry-run\", …) found")
 		return
 	}
+	// what the user said on the command line stands: nothing in the program assigns the field the
+	// --dry-run option is bound to (a configuration value may add a dry run, it may not take one away)
+	nw := 0
+	for _, fs := range fieldStores(p.ModFuncs, func(n2 *types.Named, f2 string) bool { return n2 == flagN && f2 == flagF }) {
+		if k, isC := core.ConstBool(fs.Store.Val); isC && k {
+			continue // switching the dry run on is harmless
+		}
+		// `x = x || y` keeps a dry run that was asked for
+		keeps := false
+		if ph, ok := fs.Store.Val.(*ssa.Phi); ok {
+			for _, e := range ph.Edges {
+				if k, isC := core.ConstBool(e); isC && k {
+					keeps = true
+				}
+			}
+		}
+		if keeps {
+			continue
+		}
+		nw++
+		r.Violated(rule, p.FuncName(fs.Fn), lab.next("store to the --dry-run option field"), p.Pos(fs.Store.Pos()), "the field the --dry-run option is bound to is overwritten by the program: a value from somewhere else (a configuration file, a default) can switch off a dry run the user asked for")
+	}
+	if nw == 0 {
+		r.Held(rule, "cmd/regbot", "--dry-run option field never overwritten", "-", "only the flag parser writes it")
+	}
 	for _, fn := range pkgFuncs(p, "cmd/regbot") {
 		for _, c := range core.CallsTo(fn, func(f *types.Func) bool { return core.IsModFunc(f, sandboxRel, "New") }) {
 			fname := p.FuncName(fn)
